@@ -100,10 +100,13 @@ def gen(args) -> list:
         except Exception as e:  # noqa: BLE001
             ev["exc"] = type(e).__name__
         evs.append(ev)
-    for _ in range(nnav):
+    near_epoch = list(range(-12, 13))      # day 0 is where weekday arithmetic changes sign: every day around it, in turn
+    for inav in range(nnav):
         cal = rnd.choice(cals)
         cc = rnd.random()
         n = cal._max_days - rnd.randint(0, 7) if cc < 0.15 else cal._min_days + rnd.randint(0, 7) if cc < 0.3 else rnd.randint(cal._min_days, cal._max_days)
+        if inav < 4 * len(near_epoch) and cal._min_days < -12:
+            n = near_epoch[inav % len(near_epoch)]
         d = LocalDate._ctor(days_since_epoch=n, calendar=cal)
         dow = IsoDayOfWeek(rnd.randint(1, 7))
         ev = {"op": "nav", "n": n, "dow": int(dow), "min_day": cal._min_days, "max_day": cal._max_days}
